@@ -113,7 +113,7 @@ pub fn run(ctx: &mut Ctx) {
                 Ok(l) => { let sp = spec_session(ns(&u).as_ref().as_bytes(), ns(&p).as_ref().as_bytes(), &tape[0..32], &tape[32..64], &tape[64..96], GENERATOR, &NLE);
                            if l.ks != sp.k || l.m1 != sp.m1 || l.m2 != sp.m2 || l.v != sp.v || l.a_pub != sp.a_pub || l.b_pub != sp.b_pub { fails.push(format!("{{\"user\":{},\"password\":{},\"tape\":\"{}\",\"what\":\"values differ from textbook SRP6 in this build\"}}", jstr(&u), jstr(&p), hex(&tape))); } }
                 Err(LoginFail::BadOwnKey) => {}
-                Err(e) => fails.push(format!("{{\"user\":{},\"password\":{},\"tape\":\"{}\",\"error\":\"{:?}\"}}", jstr(&u), jstr(&p), hex(&tape), e)),
+                Err(e) => fails.push(format!("{{\"user\":{},\"password\":{},\"tape\":\"{}\",\"error\":{}}}", jstr(&u), jstr(&p), hex(&tape), jstr(&format!("{:?}", e)))),
             }
         }
         fails
